@@ -46,8 +46,11 @@ fn alloc_case(ctx: &mut Ctx, start: u64, k: usize) {
 
 fn concurrent(ctx: &mut Ctx, threads: usize, per: usize, start: u64) {
     FileId::verif_set_next(start);
+    // all threads leave the barrier together: without it a thread usually finishes its allocations before the
+    // next one has even started, and nothing is interleaved
+    let barrier = std::sync::Arc::new(std::sync::Barrier::new(threads));
     let handles: Vec<_> = (0..threads)
-        .map(|_| std::thread::spawn(move || (0..per).map(|_| FileId::new().verif_raw()).collect::<Vec<u64>>()))
+        .map(|_| { let b = barrier.clone(); std::thread::spawn(move || { b.wait(); (0..per).map(|_| FileId::new().verif_raw()).collect::<Vec<u64>>() }) })
         .collect();
     let mut all = vec![];
     for h in handles { all.extend(h.join().unwrap()); }
@@ -103,9 +106,11 @@ fn shared_schema(ctx: &mut Ctx, threads: usize) {
     let schema = Schema::parse_and_validate(SCHEMA, "s.graphql").expect("schema valid");
     let sequential: Vec<String> = DOCS.iter().map(|d| workload(&schema, d)).collect();
     let schema = std::sync::Arc::new(schema);
+    let barrier = std::sync::Arc::new(std::sync::Barrier::new(threads));
     let handles: Vec<_> = (0..threads).map(|t| {
         let schema = schema.clone();
-        std::thread::spawn(move || (0..DOCS.len()).map(|i| { let j = (i + t) % DOCS.len(); (j, workload(&schema, DOCS[j])) }).collect::<Vec<_>>())
+        let barrier = barrier.clone();
+        std::thread::spawn(move || { barrier.wait(); (0..DOCS.len()).map(|i| { let j = (i + t) % DOCS.len(); (j, workload(&schema, DOCS[j])) }).collect::<Vec<_>>() })
     }).collect();
     for h in handles {
         match h.join() {
@@ -173,8 +178,167 @@ fn first_action(which: usize) {
     }
 }
 
+// ---------------------------------------------------------------------------------------------------------
+// File ids as the PUBLIC entry points hand them out (every `FileId::new()` call site in parser.rs), from many
+// threads at once: each parsed thing reports the id(s) it was given; all must be pairwise distinct, none reserved.
+const N_ENTRY: usize = 12;
+fn entry_point_ids(which: usize, tag: usize) -> Vec<u64> {
+    use apollo_compiler::ast;
+    use apollo_compiler::parser::Parser;
+    use apollo_compiler::executable::FieldSet;
+    use apollo_compiler::validation::Valid;
+    let sdl = format!("type Query {{ f{tag}: Int a: Query }}");
+    let doc = format!("{{ f{tag} a {{ f{tag} }} }}");
+    let ids_of = |m: &apollo_compiler::parser::SourceMap| -> Vec<u64> {
+        m.iter().filter(|(_, f)| f.path() != std::path::Path::new("built_in.graphql")).map(|(k, _)| k.verif_raw()).collect()
+    };
+    let schema = || Valid::assume_valid(Schema::parse(&sdl, "s.graphql").unwrap());
+    match which {
+        0 => ids_of(&ast::Document::parse(&sdl, "a.graphql").unwrap().sources),
+        1 => ids_of(&Schema::parse(&sdl, "s.graphql").unwrap().sources),
+        2 => { let mut b = Schema::builder(); b = b.parse(&sdl, "s1.graphql").parse("extend type Query { z: Int }", "s2.graphql"); ids_of(&b.build().unwrap().sources) }
+        3 => { let s = schema(); let mut v = ids_of(&s.sources); let d = ExecutableDocument::parse(&s, &doc, "d.graphql").unwrap(); v.extend(ids_of(&d.sources).into_iter().filter(|i| !v.contains(i)).collect::<Vec<_>>()); v }
+        4 => { let s = schema(); let skip = ids_of(&s.sources); let d = ExecutableDocument::parse_and_validate(&s, &doc, "d.graphql").unwrap(); ids_of(&d.sources).into_iter().filter(|i| !skip.contains(i)).collect() }
+        5 => { let (s, d) = Parser::new().parse_mixed_validate(format!("{sdl} {doc}"), "m.graphql").unwrap(); let mut v = ids_of(&s.sources); v.extend(ids_of(&d.sources)); v.sort(); v.dedup(); v }
+        6 => { let s = schema(); let skip = ids_of(&s.sources); let fs = FieldSet::parse(&s, name_q(), format!("f{tag} a {{ f{tag} }}"), "fs.graphql").unwrap(); ids_of(&fs.sources).into_iter().filter(|i| !skip.contains(i)).collect() }
+        7 => { let t = ast::Type::parse(format!("[T{tag}!]"), "t.graphql").unwrap(); t.inner_named_type().location().map(|l| l.file_id().verif_raw()).into_iter().collect() }
+        8 => { let s = schema(); let skip = ids_of(&s.sources); let mut errs = apollo_compiler::validation::DiagnosticList::new(Default::default()); let mut eb = ExecutableDocument::builder(Some(&s), &mut errs); Parser::new().parse_into_executable_builder(&doc, "e1.graphql", &mut eb); Parser::new().parse_into_executable_builder("query Q2 { a { a { __typename } } }", "e2.graphql", &mut eb); let d = eb.build(); ids_of(&d.sources).into_iter().filter(|i| !skip.contains(i)).collect() }
+        9 => { let d = Parser::new().recursion_limit(50).token_limit(1000).parse_ast(&doc, "p.graphql").unwrap(); ids_of(&d.sources) }
+        10 => { // a source with syntax errors still gets an id of its own (the partial result carries it)
+            match ast::Document::parse("type Query { f: Int ", "bad.graphql") { Ok(d) => ids_of(&d.sources), Err(e) => ids_of(&e.partial.sources) } }
+        _ => { match Schema::parse_and_validate(&sdl, "v.graphql") { Ok(s) => ids_of(&s.sources), Err(e) => ids_of(&e.partial.sources) } }
+    }
+}
+fn name_q() -> apollo_compiler::Name { apollo_compiler::name!("Query") }
+
+fn check_ids(ctx: &mut Ctx, what: &str, all: &[(usize, u64)], may_wrap: bool) {
+    for (w, id) in all {
+        if *id == 0 || *id == 1 || *id == 2 || id & TAG != 0 {
+            ctx.fail("fileid-reserved", what, &format!("entry point {w} was given the reserved id {id}"));
+        }
+    }
+    if !may_wrap {
+        let mut seen = std::collections::HashMap::new();
+        for (w, id) in all {
+            if let Some(w0) = seen.insert(*id, *w) {
+                ctx.fail("fileid-duplicate", what, &format!("id {id} given out twice (entry points {w0} and {w})"));
+                break;
+            }
+        }
+    }
+}
+
+fn entry_points_family(ctx: &mut Ctx) {
+    // sequential: every entry point once, from a fresh counter and from counters just below the wrap
+    for start in [3u64, 1_000, TAG - 40, TAG - 7, TAG - 1] {
+        FileId::verif_set_next(start);
+        let mut all = vec![];
+        for w in 0..N_ENTRY {
+            match catch(|| entry_point_ids(w, w)) {
+                Ok(v) => { if v.is_empty() { ctx.fail("entry-point-without-id", &format!("entry point {w}"), "no file id observable"); } for id in v { all.push((w, id)); } }
+                Err(e) => ctx.fail("entry-point-panic", &format!("entry point {w} from counter {start}"), &e),
+            }
+        }
+        ctx.stat_n("family:entry_point_ids_sequential", all.len() as u64);
+        check_ids(ctx, &format!("all entry points in sequence, counter preset {start}"), &all, start >= TAG - 100);
+    }
+    // concurrent
+    let reps = if ctx.thorough { 30 } else { 4 };
+    for rep in 0..reps {
+        for threads in [2usize, 5, 16] {
+            FileId::verif_set_next(3 + rep as u64 * 10_000);
+            let barrier = std::sync::Arc::new(std::sync::Barrier::new(threads));
+            let rounds = 6usize;
+            let handles: Vec<_> = (0..threads).map(|t| { let b = barrier.clone(); std::thread::spawn(move || {
+                b.wait();
+                let mut v = vec![];
+                for r in 0..rounds { for w in 0..N_ENTRY { let w = (w + t) % N_ENTRY; for id in entry_point_ids(w, t * 100 + r) { v.push((w, id)); } } }
+                v
+            }) }).collect();
+            let mut all = vec![];
+            for h in handles { match h.join() { Ok(v) => all.extend(v), Err(_) => ctx.fail("entry-point-panic", "concurrent entry points", "a worker thread panicked") } }
+            ctx.stat_n("family:entry_point_ids_concurrent", all.len() as u64);
+            check_ids(ctx, &format!("{threads} threads x {rounds} rounds over all entry points"), &all, false);
+        }
+    }
+}
+
+// ---------------------------------------------------------------------------------------------------------
+// Cold start: the lazily initialised statics (built-in schema, meta-field definitions, built-in scalar table) are
+// initialised by whichever thread comes first. In this process they are long initialised when threads start, so
+// a FRESH process is started whose very first use of the library happens on N threads released by a barrier.
+// The child prints every thread's results; they must equal what this (warm, sequential) process computes.
+const COLD_SCHEMAS: [&str; 3] = [
+    SCHEMA,
+    "type Query { a: Int } extend scalar Int @specifiedBy(url: \"u\")",
+    "type Query { f(x: Float, i: ID, s: String, b: Boolean): Int }",
+];
+fn cold_item(k: usize) -> String {
+    let src = COLD_SCHEMAS[k % COLD_SCHEMAS.len()];
+    match Schema::parse_and_validate(src, "s.graphql") {
+        Ok(schema) => {
+            let mut out = schema.to_string();
+            for d in DOCS { out.push_str(" ## "); out.push_str(&workload(&schema, d)); }
+            out.push_str(&format!(" ## types={} directives={} builtin_source={}", schema.types.len(), schema.directive_definitions.len(),
+                schema.sources.iter().filter(|(id, _)| id.verif_raw() == 1).count()));
+            out
+        }
+        Err(e) => e.errors.iter().map(|d| d.error.to_string()).collect::<Vec<_>>().join("|"),
+    }.replace('\n', " ")
+}
+/// `VH_C31_CHILD=cold:threads:items`
+fn cold_child_main(spec: &str) {
+    let p: Vec<usize> = spec.split(':').map(|x| x.parse().unwrap()).collect();
+    let (threads, items) = (p[0], p[1]);
+    let barrier = std::sync::Arc::new(std::sync::Barrier::new(threads));
+    let handles: Vec<_> = (0..threads).map(|t| { let b = barrier.clone(); std::thread::spawn(move || {
+        b.wait();
+        (0..items).map(|i| { let k = (i + t) % items; (k, cold_item(k), entry_point_ids((i + t) % N_ENTRY, t * 100 + i)) }).collect::<Vec<_>>()
+    }) }).collect();
+    for (t, h) in handles.into_iter().enumerate() {
+        match h.join() {
+            Ok(v) => for (k, out, ids) in v { println!("{t}\t{k}\t{}\t{out}", ids.iter().map(|i| i.to_string()).collect::<Vec<_>>().join(",")); },
+            Err(_) => println!("{t}\tPANIC"),
+        }
+    }
+    println!("DONE");
+}
+
+fn cold_start_family(ctx: &mut Ctx) {
+    let items = COLD_SCHEMAS.len();
+    let expected: Vec<String> = (0..items).map(cold_item).collect();
+    let runs = if ctx.thorough { 40 } else { 6 };
+    for run in 0..runs {
+        let threads = [2usize, 4, 8, 16][run % 4];
+        let spec = format!("cold:{threads}:{items}");
+        let out = std::process::Command::new(std::env::current_exe().unwrap()).arg("C31").env("VH_C31_CHILD", &spec)
+            .stdout(std::process::Stdio::piped()).stderr(std::process::Stdio::null()).output();
+        let Ok(out) = out else { ctx.fail("cold-start-spawn", &spec, "could not start the child process"); continue };
+        let text = String::from_utf8_lossy(&out.stdout).to_string();
+        ctx.stat("family:cold_start_processes");
+        if !out.status.success() || !text.trim_end().ends_with("DONE") {
+            ctx.fail("cold-start-crashed", &format!("fresh process, {threads} threads using the library for the first time simultaneously"), "the child process did not finish");
+            continue;
+        }
+        let mut ids: Vec<(usize, u64)> = vec![];
+        for line in text.lines() {
+            if line == "DONE" { continue; }
+            let f: Vec<&str> = line.splitn(4, '\t').collect();
+            if f.len() < 4 { ctx.fail("cold-start-panic", &format!("fresh process, {threads} threads"), &format!("thread {} panicked", f[0])); continue; }
+            let k: usize = f[1].parse().unwrap();
+            for id in f[2].split(',').filter(|x| !x.is_empty()) { ids.push((0, id.parse().unwrap())); }
+            ctx.stat("family:cold_start_results");
+            if f[3] != expected[k] {
+                ctx.fail("cold-start-divergence", &format!("fresh process, {threads} threads, schema {:?}", COLD_SCHEMAS[k]), "a thread racing for the first initialisation computed a result different from the sequential one");
+            }
+        }
+        check_ids(ctx, &format!("fresh process, {threads} threads"), &ids, false);
+    }
+}
+
 /// `VH_C31_CHILD=<first action>:<threads>`
 pub fn child_main(spec: &str) {
+    if let Some(rest) = spec.strip_prefix("cold:") { cold_child_main(rest); return; }
     let mut it = spec.split(':').map(|x| x.parse::<usize>().unwrap_or(0));
     let (first, threads) = (it.next().unwrap_or(0), it.next().unwrap_or(1).max(1));
     // on its own thread or on the main thread, before anything else touches the library
@@ -239,5 +403,7 @@ pub fn run(ctx: &mut Ctx) {
         concurrent(ctx, 8, 50, TAG - 200); // crosses the wrap: only reserved-ness is checked
     }
     for threads in [2usize, 8, 16] { shared_schema(ctx, threads); }
+    entry_points_family(ctx);
+    cold_start_family(ctx);
     FileId::reset();
 }
